@@ -8,11 +8,15 @@ tie:    journal-shape enumeration through harness/sess_common: every outbound jo
         PossDupFlag 43=N / another non-Y value, application row with a stale tag 122 and no 43} x every (BeginSeqNo, EndSeqNo)
         in [-1, len+2]^2 x {ACTIVE, RESENDREQ_AWAITING}: ONE `recv` of the ResendRequest on the REAL
         connection and on the Lean model, effects and complete post-state (journal rows!) compared;
-        then a second and third ResendRequest in sequence (pre-state = the implementation's post-state)
+        then a second and third ResendRequest in sequence (pre-state = the implementation's post-state).
+        The real connection's Journaler is SHARED: it also holds two other sessions (another CompID pair,
+        and a pair with the same SenderCompID) with inbound and outbound rows numbered below, inside and
+        above every range that can be requested
 oracle: the ReplyChain specification implemented HERE in Python (nothing of the Lean side is used),
         evaluated on the frames decoded from the bytes the real connection wrote, plus side-effect
-        freedom (counter, stored counter, state, rows outside the range, nothing but writes and state
-        notifications).  The symptoms of the former finding D9 (bounded EndSeqNo: reply runs past it, rows
+        freedom (counter, stored counter, state, rows outside the range, our own inbound rows, nothing but
+        writes and state notifications) and: every row and stored counter of the OTHER sessions in the same
+        journal is byte-identical afterwards (`C06-other-session-journal-changed`).  The symptoms of the former finding D9 (bounded EndSeqNo: reply runs past it, rows
         after it deleted; repaired by /repo da179c4) keep ONE signature of their own; nothing is listed as
         known any more, so every failure is a violation.
 """
@@ -40,6 +44,10 @@ ASSUMPTIONS = [
     "family's business); tags are distinct within a row",
 ]
 MODELLED_NOT_VERIFIED = [
+    "C06: the session model keeps the journal of ONE session; that journaler calls made with one session's object leave "
+    "all other sessions of a shared journal untouched is proved for the multi-session journal model of C13 "
+    "(journal_calls_leave_other_sessions) and checked on the real shared Journaler by the oracle every run; that "
+    "_process_resend makes only such calls is by inspection (recover_messages / set_seq_num / persist_msg with self._session)",
     "C06: _process_resend / send_msg / Codec.encode numbering / Journaler.set_seq_num, persist_msg, recover_messages are "
     "hand-modelled (Model/SessionResend.lean, SessionSend.lean, SessionTypes.lean: abstract journal) and compared "
     "with the real connection + real in-memory SQLite journaler on enumerated journal shapes every run",
@@ -107,7 +115,7 @@ def make_abs(case):
         if letter == "x":
             declined.add(num)
     a.out_rows = rows
-    a.in_rows = [S.row("T", "S", "D", ((11, "in4"),), 4, T0)]
+    a.in_rows = [S.row("T", "S", "0", (), 3, T0), S.row("T", "S", "D", ((11, "in4"),), 4, T0)]
     mode = case.get("sr", "letters")
     if mode == "none":
         sr, declined = "none", {r[0] for r in rows}
@@ -122,15 +130,98 @@ def request(a, b, e, now):
     return ("recv", now, S.inbound(a, "2", [(7, str(b)), (16, str(e))], now_ms=now))
 
 
+# ---- a journal shared with other sessions ------------------------------------------------------------
+_FBYTES = {}
+
+
+def _fbytes(sender, target, n):
+    k = (sender, target, n)
+    if k not in _FBYTES:
+        _FBYTES[k] = S.fields_to_bytes(S.row(sender, target, "D", ((11, f"f{n}"),), n, T0)[1][1])
+    return _FBYTES[k]
+
+
+def foreign_keys(impl):
+    """two more sessions in the SAME Journaler (created once per Impl): another CompID pair, and a pair
+    that shares our SenderCompID"""
+    if not hasattr(impl, "c06_keys"):
+        j = impl.journal
+        impl.c06_keys = [j.create_or_load("T2", "S2").key, j.create_or_load("T9", "S").key]
+        assert impl.key not in impl.c06_keys
+    return impl.c06_keys
+
+
+_FROWS = {}
+
+
+def foreign_rows(impl, a):
+    """rows of the other sessions: numbers below, inside and above every range that can be requested from
+    `a`, both directions; returns (message rows, counter updates, the snapshot these make)"""
+    k2, k3 = foreign_keys(impl)
+    no = a.next_out
+    ck = (id(impl), no)
+    if ck in _FROWS:
+        return _FROWS[ck]
+    lo, hi = max(1, no - 7), no + 2
+    rows = []
+    for n in {lo, no - 3, no - 2, no - 1, no + 1}:           # below / inside / above any requestable range
+        if n >= 1:
+            rows.append((n, k2, 1, _fbytes("S2", "T2", n)))   # MessageDirection.OUTBOUND
+    for n in {lo, no - 1, no + 1}:
+        if n >= 1:
+            rows.append((n, k2, 0, _fbytes("T2", "S2", n)))   # INBOUND
+    for n in {no - 1, no + 1}:
+        if n >= 1:
+            rows.append((n, k3, 1, _fbytes("S", "T9", n)))
+    rows = sorted(set(rows))
+    counters = [(k2, hi, hi), (k3, no + 1, 0)]
+    expect = (sorted((k, d, n, m) for (n, k, d, m) in rows),
+              sorted([(k2, "T2", "S2", hi, hi), (k3, "T9", "S", no + 1, 0)]))
+    if len(_FROWS) > 64:
+        _FROWS.clear()
+    _FROWS[ck] = (rows, counters, expect)
+    return _FROWS[ck]
+
+
+def snapshot_others(impl):
+    cur = impl.journal.cursor
+    cur.execute("SELECT session, direction, seqNo, msg FROM message WHERE session != ? ORDER BY session, direction, seqNo",
+                (impl.key,))
+    msgs = [tuple(r) for r in cur]
+    cur.execute("SELECT sessionId, targetCompId, senderCompId, outboundSeqNo, inboundSeqNo FROM session "
+                "WHERE sessionId != ? ORDER BY sessionId", (impl.key,))
+    return msgs, [tuple(r) for r in cur]
+
+
+def step_shared(impl, a, sr, ev):
+    """ONE event on the real connection whose Journaler also holds two other sessions;
+    returns (effects, post-state of OUR session, other sessions before, other sessions after)"""
+    impl.load(a)
+    cur = impl.journal.cursor
+    rows, counters, before = foreign_rows(impl, a)
+    cur.executemany("INSERT INTO message VALUES(?, ?, ?, ?)", rows)
+    for k, so, si in counters:
+        cur.execute("UPDATE session SET outboundSeqNo=?, inboundSeqNo=? WHERE sessionId=?", (so, si, k))
+    impl.journal.conn.commit()
+    if not getattr(impl, "c06_checked", False):     # once per Impl: the computed snapshot is what SQLite holds
+        assert impl.MD.OUTBOUND.value == 1 and impl.MD.INBOUND.value == 0
+        assert snapshot_others(impl) == before, (snapshot_others(impl), before)
+        impl.c06_checked = True
+    impl.apply(sr, ev)
+    eff, post = impl.effects(), impl.dump()
+    return eff, post, before, snapshot_others(impl)
+
+
 def run_impl(impl, case):
-    """all requests of a case on the real connection; returns [(pre AbsConn, sr, event, declined, eff, post)]"""
+    """all requests of a case on the real connection; returns
+    [(pre AbsConn, sr, event, declined, eff, post, other sessions before, other sessions after)]"""
     a, sr, declined = make_abs(case)
     steps = []
     rep = case.get("repeat", 1)
     for i in range(rep):
         ev = request(a, case["b"], case["e"], T0 + 1000 * (i + 1))
-        eff, post = impl.step(a, sr, ev)
-        steps.append((a, sr, ev, declined, eff, post))
+        eff, post, before, after = step_shared(impl, a, sr, ev)
+        steps.append((a, sr, ev, declined, eff, post, before, after))
         if i + 1 < rep:
             a = S.parse_conn_tokens(post)
     return steps
@@ -235,7 +326,7 @@ def classes(a, b, e):
     return "d9-inverted" if e < b else "d9-bounded"
 
 
-def check_step(a, declined, b, e, eff, post):
+def check_step(a, declined, b, e, eff, post, before=None, after=None):
     """property clauses for ONE request; returns [(signature, what)]"""
     out = []
     cls = classes(a, b, e)
@@ -258,9 +349,15 @@ def check_step(a, declined, b, e, eff, post):
         fails.append(("connection-field-changed", "", False))
     if p.next_in != a.next_in + 1:
         fails.append(("request-not-consumed", f"next_in {a.next_in} -> {p.next_in}", False))
-    for r in a.in_rows:
-        if r not in p.in_rows:
-            fails.append(("inbound-row-lost", str(r[0]), False))
+    # our own INBOUND rows: what was there stays byte-identical, the request is added under its number
+    if sorted(r for r in p.in_rows if r[0] != a.next_in) != sorted(a.in_rows):
+        fails.append(("inbound-rows-changed", f"{[r[0] for r in a.in_rows]} -> {[r[0] for r in p.in_rows]}", False))
+    # the OTHER sessions of the same journal: every row and the stored counters byte-identical
+    if before is not None and before != after:
+        lost = [r[:3] for r in before[0] if r not in after[0]]
+        new = [r[:3] for r in after[0] if r not in before[0]]
+        fails.append(("other-session-journal-changed",
+                      f"rows (session, direction, seqNo) lost {lost[:6]} new {new[:6]}; counters {before[1]} -> {after[1]}", False))
     if cls.startswith("invalid"):
         if frames:
             fails.append(("invalid-request-answered", f"{len(frames)} frames", False))
@@ -315,8 +412,8 @@ def check_repeat(steps):
 
 def check_case(case, steps):
     fl = []
-    for (a, sr, ev, declined, eff, post) in steps:
-        fl += check_step(a, declined, case["b"] + 0, case["e"] + 0, eff, post)
+    for (a, sr, ev, declined, eff, post, before, after) in steps:
+        fl += check_step(a, declined, case["b"] + 0, case["e"] + 0, eff, post, before, after)
     if len(steps) > 1:
         a0 = steps[0][0]
         if not classes(a0, case["b"], case["e"]).startswith("d9"):
@@ -426,7 +523,7 @@ def run_both(ctx, impl, drv, cases, stats, dis, impl_fail, maxdis=40):
             steps = run_impl(impl, case)
             allsteps.append((case, steps))
             stats.note(case, steps)
-            for (a, sr, ev, _d, _e, _p) in steps:
+            for (a, sr, ev, *_rest) in steps:
                 lines.append(S.step_line(a, sr, ev))
             for f in check_case(case, steps):
                 if sum(1 for g in impl_fail if g["signature"] == f["signature"]) < 25:
@@ -435,7 +532,7 @@ def run_both(ctx, impl, drv, cases, stats, dis, impl_fail, maxdis=40):
         model = drv.batch(lines) if drv else []
         i = 0
         for case, steps in allsteps:
-            for (a, sr, ev, _d, eff, post) in steps:
+            for (a, sr, ev, _d, eff, post, *_rest) in steps:
                 n += 1
                 if drv:
                     il = S.reply(eff, post)
